@@ -265,7 +265,19 @@ def install(sim, extra_code_prefixes=()):
     U.time = tm
     U.ctypes = CtypesFacade
     U.platform = PlatformFacade()
-    U.Queue = SimQueue
+    qcodes = []
+    import queue as _stdqueue
+    if issubclass(U.Queue, getattr(_stdqueue, 'SimpleQueue', ())):
+        # the tree under test uses the C implementation: atomic operations, modelled by SimQueue (C-call semantics)
+        U.Queue = SimQueue
+        sim.queue_model = 'SimpleQueue (C): atomic stand-in'
+    else:
+        # the tree under test uses queue.Queue: the standard library's own Queue / Condition *Python code* runs under the
+        # simulator over simulated locks and clock (see stdq.py), so asynchronous exceptions can land inside it
+        from . import stdq
+        Q, _Cond, qcodes = stdq.build()
+        U.Queue = type('Queue', (Q,), {'close': lambda self: None, '__module__': 'pyworkers.utils'})
+        sim.queue_model = 'queue.Queue: real stdlib code under simulation'
     W.os = osf
     W.threading = th
     T.os = osf
@@ -311,5 +323,6 @@ def install(sim, extra_code_prefixes=()):
         'BraceMessage', 'BraceStyleAdapter', 'get_logger', 'classproperty', 'staticproperty',
         'SupportClassPropertiesMeta', 'LazyModule', 'add_module_properties', 'python_is', 'is_windows',
         'typename', 'setproctitle', 'setthreadtitle', '_get_'))
+    codes = codes + list(qcodes)
     core.instrument(codes)
     sim.n_instrumented = len(codes)
